@@ -290,7 +290,8 @@ impl<'a, 'p> Gen<'a, 'p> {
                     JoinAlgo::BcHash,
                     JoinAlgo::BcSortMerge,
                     JoinAlgo::Keyed,
-                ][self.ch.below(6)];
+                    JoinAlgo::KeyedAfterAgg,
+                ][self.ch.below(7)];
                 let k = [1, 3, 7, 16, 64, 1000][self.ch.weighted(&[1, 2, 3, 3, 3, 2])];
                 Combine::Join(kind, algo, k)
             }
